@@ -343,7 +343,25 @@ func (c *Ctx) computeDeps() {
 	}
 }
 
-func (c *Ctx) header() string {
+// FP operations that are expensive to bit-blast go through these symbols: exact definitions, or
+// (first attempt, sound for proofs because it over-approximates) uninterpreted functions.
+const fpExact = `(define-fun fmulX ((a (_ FloatingPoint 11 53)) (b (_ FloatingPoint 11 53))) (_ FloatingPoint 11 53) (fp.mul RNE a b))
+(define-fun fdivX ((a (_ FloatingPoint 11 53)) (b (_ FloatingPoint 11 53))) (_ FloatingPoint 11 53) (fp.div RNE a b))
+`
+const fpAbstract = `(declare-fun fmulX ((_ FloatingPoint 11 53) (_ FloatingPoint 11 53)) (_ FloatingPoint 11 53))
+(declare-fun fdivX ((_ FloatingPoint 11 53) (_ FloatingPoint 11 53)) (_ FloatingPoint 11 53))
+`
+const fpExactBV = `(define-fun f2sX ((a (_ FloatingPoint 11 53))) (_ BitVec 64) ((_ fp.to_sbv 64) RTZ a))
+(define-fun s2fX ((a (_ BitVec 64))) (_ FloatingPoint 11 53) ((_ to_fp 11 53) RNE a))
+`
+const fpAbstractBV = `(declare-fun f2sX ((_ FloatingPoint 11 53)) (_ BitVec 64))
+(declare-fun s2fX ((_ BitVec 64)) (_ FloatingPoint 11 53))
+`
+
+func (c *Ctx) header() string { return c.headerFP(0) }
+
+// headerFP: level 0 exact; 1: mul/div uninterpreted, conversions exact; 2: all of them uninterpreted
+func (c *Ctx) headerFP(level int) string {
 	var b strings.Builder
 	b.WriteString("(set-option :produce-models true)\n")
 	b.WriteString("(set-logic ALL)\n")
@@ -371,12 +389,26 @@ func (c *Ctx) header() string {
 	if c.it.mode == ModeInt {
 		b.WriteString(intPrelude)
 	}
+	if level >= 1 {
+		b.WriteString(fpAbstract)
+	} else {
+		b.WriteString(fpExact)
+	}
+	if c.it.mode == ModeBV {
+		if level >= 2 {
+			b.WriteString(fpAbstractBV)
+		} else {
+			b.WriteString(fpExactBV)
+		}
+	}
 	return b.String()
 }
 
 func (c *Ctx) emit(o *Obligation) string { return c.emitWith(o, nil) }
 
-func (c *Ctx) emitWith(o *Obligation, obs []obsTerm) string {
+func (c *Ctx) emitWith(o *Obligation, obs []obsTerm) string { return c.emitFP(o, obs, 0) }
+
+func (c *Ctx) emitFP(o *Obligation, obs []obsTerm, fpAbs int) string {
 	c.computeDeps()
 	need := map[string]bool{}
 	var work []string
@@ -423,7 +455,7 @@ func (c *Ctx) emitWith(o *Obligation, obs []obsTerm) string {
 	}
 	var b strings.Builder
 	fmt.Fprintf(&b, "; obligation %s\n; kind %s  pos %s\n", o.Name, o.Kind, o.Pos)
-	b.WriteString(c.header())
+	b.WriteString(c.headerFP(fpAbs))
 	for _, d := range c.decls {
 		if d.name != "" {
 			if need[d.name] {
